@@ -60,6 +60,11 @@ CHECKS = {
    technique='TLA+ decision tables CertRule / SshsigRule / VerifyRule (specs/SigCert) model-checked with TLC against the code-ordered decision; every row materialised with real keys and a patched clock; single-byte tamper sweeps',
    text='TLC checks equivalence of the declarative rules and the code-ordered checks over 41k certificate rows, ~5.5k SSHSIG rows and 504 signature rows (five sensitivity variants rejected); every row is materialised with real keys of every algorithm, boundary instants, principals and option sets; every single-byte edit, truncation and extension of signatures, certificates and SSHSIG blobs must fail verification. The table part is model checking; the cryptographic part is exploration.',
    note='Trusted: TLC, key generation by asyncssh, ssh-keygen as second opinion. ECDSA (r, n-s) malleability is outside the quantifier.'),
+ 'C01': dict(
+   category='model_checking', design_ref='DESIGN.md §5.1',
+   technique='TLA+ adversary model of the encrypted packet stream (specs/Transport/Tamper.tla) model-checked with TLC; every adversary schedule of the model replayed by a packet-boundary MITM on live sessions',
+   text='TLC exhausts up to two adversary actions (bit flip in length/body/padding/tag, truncation, drop, duplicate, swap, replayed/foreign/forged splice) at every position of a packet stream for the four shapes of the encryption layer against TamperEvident/PrefixIntact (the parse-after-error variant must fail for GCM); every distinct schedule is replayed on live authenticated sessions in both directions at several session phases for representative (thorough: all) cipher/MAC/compression combinations; monitors: application data is a prefix of what was written, data before the first altered packet arrived, an altered stream never ends in a clean close.',
+   note='Trusted: TLC, virtual loop with selector semantics, MITM of drivers/transport.py. Adversary granularity: whole packets + in-packet bit flips/truncation. F6 (re-parse between fatal error and deferred clean-up) is outside what this harness can produce (see DESIGN.md).'),
 }
 NOT_YET = 'check under construction in this round; see DESIGN.md §9'
 
